@@ -1105,6 +1105,389 @@ class NativeBookkeeping(NativeCheck):
         return str(inp)
 
 
+# ----------------------------------------------------------------------------
+# header text -> typed identifiers (parse_variant_peptide_id)
+# ----------------------------------------------------------------------------
+VPI = 'moPepGen/aa/VariantPeptideIdentifier.py'
+PREFIXES = ['FUSION', 'CI', 'CIRC', 'ORF', '1-', '2-', 'W2F', 'SECT', 'SNV', 'INDEL', 'MNV', 'RES', 'SE', 'RI', 'A3SS', 'A5SS', 'MXE']
+ALT_P, CTBV_P = ['W2F', 'SECT'], ['SNV', 'INDEL', 'MNV', 'RES', 'SE', 'RI', 'A3SS', 'A5SS', 'MXE', 'W2F', 'SECT']
+
+
+class _Field:
+    """the j-th '|'-separated field of a header entry"""
+    def __init__(self, owner, j, rest_of=None):
+        self.owner, self.j, self.rest_of = owner, j, rest_of
+
+    def sym_method(self, I, name, a, k):
+        st = self.owner._cur
+        if name == 'startswith' and len(a) == 1 and isinstance(a[0], str):
+            if a[0] not in PREFIXES:
+                raise Unsupported(f'prefix {a[0]!r}')
+            return st.PRE(self.j, PREFIXES.index(a[0]))
+        if name == 'split' and list(a) == ['-', 1]:
+            return (_Which(self.owner, self.j), _Field(self.owner, self.j, rest_of=self))
+        raise Unsupported(f'field.{name}{tuple(a)!r}')
+
+    def sym_int(self, I):
+        st = self.owner._cur
+        if not I.e.branch(st.is_num(self.j), 'numeric field'):
+            I.raise_('ValueError', 'invalid literal for int()')
+        return st.num(self.j)
+
+    def sym_contains(self, I, item):
+        raise Unsupported('substring test on a field')
+
+    def __repr__(self):
+        return f'Field({self.j}{"" if self.rest_of is None else ", rest"})'
+
+
+class _Which:
+    def __init__(self, owner, j):
+        self.owner, self.j = owner, j
+
+    def sym_int(self, I):
+        st = self.owner._cur
+        return z3.If(st.PRE(self.j, PREFIXES.index('1-')), 1, 2)
+
+
+class _Fields:
+    """it.split('|'): n fields; pop() removes the last one"""
+    def __init__(self, owner):
+        self.owner = owner
+        self.popped = False
+
+    def n(self):
+        st = self.owner._cur
+        return st.n - 1 if self.popped else st.n
+
+    def sym_getitem(self, I, idx):
+        st = self.owner._cur
+        if idx == -1:
+            return _Field(self.owner, self.n() - 1)
+        if isinstance(idx, int) and idx >= 0:
+            if not I.e.branch(self.n() > idx, 'index<len'):
+                I.raise_('IndexError', 'list index out of range')
+            return _Field(self.owner, z3.IntVal(idx))
+        raise Unsupported(f'fields[{idx!r}]')
+
+    def sym_method(self, I, name, a, k):
+        if name == 'pop' and not a:
+            self.popped = True
+            return None
+        raise Unsupported(f'fields.{name}')
+
+    def sym_len(self, I):
+        return self.n()
+
+    def sym_view(self, I):
+        return FnView(self.n(), lambda j: _Field(self.owner, j if is_z3(j) else z3.IntVal(j)), tag='fields')
+
+
+class _GhostIds:
+    """a list of variant ids: membership predicate over field positions; only appended to"""
+    def __init__(self, I, name):
+        self.name = name
+        self.mem = z3.Function(I.e.fresh_name(f'in_{name}'), I_, B_)
+        j = z3.Int('j_e')
+        I.e.assume(z3.ForAll([j], z3.Not(self.mem(j))))
+
+    def fresh(self, I):
+        self.mem = z3.Function(I.e.fresh_name(f'in_{self.name}'), I_, B_)
+
+    def add(self, I, j):
+        new = z3.Function(I.e.fresh_name(f'in_{self.name}'), I_, B_)
+        x = z3.Int('x_add')
+        I.e.assume(z3.ForAll([x], new(x) == z3.Or(self.mem(x), x == j)))
+        self.mem = new
+
+    def sym_method(self, I, name, a, k):
+        if name == 'append' and isinstance(a[0], _Field):
+            self.add(I, a[0].j)
+            return None
+        raise Unsupported(f'{self.name}.{name}')
+
+    def sym_binop(self, I, op, other, reflected):
+        if op != '+':
+            return NotImplemented
+        parts = [self] + (other.parts if isinstance(other, _IdUnion) else [other] if isinstance(other, _GhostIds) else None if other != [] else [])
+        return _IdUnion(parts[::-1] if reflected else parts)
+
+
+class _IdUnion:
+    def __init__(self, parts):
+        self.parts = parts
+
+    def sym_binop(self, I, op, other, reflected):
+        if op != '+':
+            return NotImplemented
+        o = other.parts if isinstance(other, _IdUnion) else [other] if isinstance(other, _GhostIds) else [] if other == [] else None
+        if o is None:
+            return NotImplemented
+        return _IdUnion(o + self.parts if reflected else self.parts + o)
+
+    def mem(self, j):
+        return z3.Or(*[p.mem(j) for p in self.parts]) if self.parts else z3.BoolVal(False)
+
+
+class _VarIds:
+    """var_ids: which side (0 = peptide level, 1, 2) -> list of ids"""
+    def __init__(self, I):
+        self.lists = {w: _GhostIds(I, f'var_ids_{w}') for w in (0, 1, 2)}
+        self.present = {w: z3.BoolVal(False) for w in (0, 1, 2)}
+
+    def havoc(self, I):
+        for w in (0, 1, 2):
+            self.lists[w].fresh(I)
+            self.present[w] = I.e.bool(f'var_ids_has_{w}')
+
+    def pick(self, I, key):
+        if isinstance(key, int):
+            return key
+        for w in (0, 1):
+            if I.e.branch(key == w, f'side=={w}'):
+                return w
+        I.e.assume(key == 2)
+        return 2
+
+    def sym_contains(self, I, key):
+        return self.present[self.pick(I, key)]
+
+    def sym_getitem(self, I, key):
+        return self.lists[self.pick(I, key)]
+
+    def sym_setitem(self, I, key, val):
+        w = self.pick(I, key)
+        if not (isinstance(val, list) and len(val) == 1 and isinstance(val[0], _Field)):
+            raise Unsupported('var_ids[...] = something else than a one-element list')
+        self.lists[w].fresh(I)
+        x = z3.Int('x_set')
+        I.e.assume(z3.ForAll([x], self.lists[w].mem(x) == (x == val[0].j)))
+        self.present[w] = z3.BoolVal(True)
+
+    def sym_truth(self, I):
+        return z3.Or(*self.present.values())
+
+    def sym_method(self, I, name, a, k):
+        if name == 'get' and isinstance(a[0], int):
+            return self.lists[a[0]]
+        if name == 'values':
+            return _IdUnion(list(self.lists.values()))
+        raise Unsupported(f'var_ids.{name}')
+
+
+@register
+class ParseHeader(Contract):
+    """every '|'-separated field of a header entry ends up in exactly one slot of the identifier built for it: the trailing number is the
+    index; a FUSION- / CIRC- / CI- field may only come first and is the backbone; an ORF field is the ORF id; in a fusion entry a field
+    '1-x' / '2-x' gives x to the donor / acceptor side and any other field is a peptide-level variant; elsewhere a W2F / SECT field is an
+    alt-translation label and a field with a variant prefix a variant id; an entry without variant ids but with an ORF id is a novel-ORF
+    entry whose second field is the gene id; otherwise the first field is the transcript. A field matching none of these is dropped
+    (none such in the headers the calling commands emit: bounded check header_round_trip)"""
+    path, qualname, props = VPI, 'parse_variant_peptide_id', ('C18', 'C19')
+    declared_raises = ['ValueError', 'IndexError']
+    cover_any = True
+    max_paths = 6000
+    assumptions = ('assumed: str.startswith for the fixed prefixes is consistent (a field starting with CIRC starts with CI, with SECT starts with SE; '
+                   'prefixes none of which extends the other exclude each other); int() of a field succeeds iff the field is a number',
+                   'iteration axiom: a for loop over the fields visits every field once, in order')
+
+    def setup(self, I):
+        e = I.e
+        st = types.SimpleNamespace(made=[])
+        st.n = e.int('n_fields')
+        e.assume(st.n >= 1)
+        st.PRE = z3.Function('field_starts_with', I_, I_, B_)
+        st.is_num, st.num = z3.Function('field_is_a_number', I_, B_), z3.Function('field_as_number', I_, I_)
+        j = z3.Int('j_pre')
+        ax = []
+        for a_, pa in enumerate(PREFIXES):
+            for b_, pb in enumerate(PREFIXES):
+                if a_ == b_:
+                    continue
+                if pb.startswith(pa):
+                    ax.append(z3.Implies(st.PRE(j, b_), st.PRE(j, a_)))
+                elif not pa.startswith(pb) and a_ < b_:
+                    ax.append(z3.Not(z3.And(st.PRE(j, a_), st.PRE(j, b_))))
+        e.assume(z3.ForAll([j], z3.And(*ax)))
+        st.fields = None
+        c = self
+
+        class Entry:
+            def sym_method(s_, I2, name, a, k):
+                if name == 'split' and list(a) == ['|']:
+                    st.fields = _Fields(c)
+                    return st.fields
+                raise Unsupported(f'entry.{name}')
+
+        class Label:
+            def sym_method(s_, I2, name, a, k):
+                if name == 'split' and list(a) == [' ']:
+                    n = I2.e.int('n_entries')
+                    I2.e.assume(n >= 1)
+                    return FnView(n, lambda i: Entry(), tag='entries')
+                raise Unsupported(f'label.{name}')
+        st.coding = types.SimpleNamespace(sym_contains=lambda I2, item: I2.e.bool('backbone_is_a_coding_transcript'))
+        st.args = [Label(), st.coding]
+        self._cur = st
+        return st
+
+    def P(self, j, name):
+        return self._cur.PRE(j, PREFIXES.index(name))
+
+    def kinds(self, j):
+        P = self.P
+        fus, circ, orf = P(j, 'FUSION'), z3.Or(P(j, 'CI'), P(j, 'CIRC')), P(j, 'ORF')
+        alt = z3.Or(*[P(j, x) for x in ALT_P])
+        ctbv = z3.Or(*[P(j, x) for x in CTBV_P])
+        return fus, circ, orf, alt, ctbv
+
+    @property
+    def models(self):
+        c = self
+
+        def inst(reg):
+            def mk(cls):
+                def ctor(I, a, k):
+                    o = SymObj(cls, **k)
+                    c._cur.made.append(o)
+                    return o
+                return ctor
+            for cls in ('NovelORFPeptideIdentifier', 'FusionVariantPeptideIdentifier', 'CircRNAVariantPeptideIdentifier', 'BaseVariantPeptideIdentifier'):
+                reg.ctor_(cls, mk(cls))
+            # sum(var_ids.values(), []): the union of the three lists
+            reg.sum_hooks.append(lambda I, v, start=None: v if isinstance(v, _IdUnion) else None)
+        return (inst,)
+
+    # ---- loop 1: the fields of one entry
+    def init1(self, I, env):
+        st = self._cur
+        st.var_ids, st.alt = _VarIds(I), _GhostIds(I, 'alt_ids')
+        env['var_ids'], env['alt_ids'] = st.var_ids, st.alt
+
+    def havoc1(self, I, env, k):
+        st = self._cur
+        st.var_ids.havoc(I)
+        st.alt.fresh(I)
+        env['var_ids'], env['alt_ids'] = st.var_ids, st.alt
+        # type, backbone and ORF id found so far: decided by the fields seen; kept symbolic through flags
+        st.t_fus, st.t_circ = I.e.bool('type_is_fusion'), I.e.bool('type_is_circ')
+        I.e.assume(z3.Not(z3.And(st.t_fus, st.t_circ)))
+        if I.e.branch(st.t_fus, 'type fusion so far'):
+            env['IdentifierType'] = st.cls_fus
+            env['backbone_id'] = _Field(self, z3.IntVal(0))
+        elif I.e.branch(st.t_circ, 'type circ so far'):
+            env['IdentifierType'] = st.cls_circ
+            env['backbone_id'] = _Field(self, z3.IntVal(0))
+        else:
+            env['IdentifierType'] = None
+            env['backbone_id'] = None
+        st.orf_j = I.e.int('orf_field')
+        env['orf_id'] = _Field(self, st.orf_j) if I.e.branch(I.e.bool('orf_seen'), 'orf seen') else None
+        st.orf_seen = env['orf_id'] is not None
+
+    def typ(self, env):
+        st = self._cur
+        t = env['IdentifierType']
+        nm = getattr(t, 'name', None)
+        return 'fus' if nm == 'FusionVariantPeptideIdentifier' else 'circ' if nm == 'CircRNAVariantPeptideIdentifier' else None
+
+    def inv1(self, I, env, k):
+        """what has been filed after the first k fields"""
+        st = self._cur
+        j = z3.Int('j_inv')
+        fus, circ, orf, alt, ctbv = self.kinds(j)
+        t = self.typ(env)
+        first_is = {'fus': self.P(z3.IntVal(0), 'FUSION'), 'circ': z3.And(z3.Not(self.P(z3.IntVal(0), 'FUSION')), z3.Or(self.P(z3.IntVal(0), 'CI'), self.P(z3.IntVal(0), 'CIRC')))}
+        rng = z3.And(0 <= j, j < k)
+        back = z3.Or(fus, circ)
+        items = []
+        if t is None:
+            items.append(('untyped-so-far=>no-backbone-prefix-seen', z3.ForAll([j], z3.Implies(rng, z3.Not(back)))))
+        else:
+            items.append(('typed=>first-field-is-the-backbone', z3.And(k >= 1, first_is[t], env['backbone_id'].j == 0) if isinstance(env['backbone_id'], _Field) else False))
+            items.append(('no-second-backbone-field', z3.ForAll([j], z3.Implies(z3.And(1 <= j, j < k), z3.Not(back)))))
+        oid = env['orf_id']
+        if oid is None:
+            items.append(('no-orf-field-seen', z3.ForAll([j], z3.Implies(rng, z3.Or(back, z3.Not(orf))))))
+        else:
+            items.append(('orf-id=last-orf-field-seen', z3.And(0 <= oid.j, oid.j < k, self.P(oid.j, 'ORF'), z3.Not(z3.Or(*self.kinds(oid.j)[:2])),
+                                                                 z3.ForAll([j], z3.Implies(z3.And(oid.j < j, j < k), z3.Or(back, z3.Not(orf)))))))
+        V, A = st.var_ids, st.alt
+        plain = z3.And(rng, z3.Not(back), z3.Not(orf))
+        if t == 'fus':
+            side = lambda w: z3.If(self.P(j, '1-'), 1, z3.If(self.P(j, '2-'), 2, 0)) == w
+            for w in (0, 1, 2):
+                items.append((f'fusion-side-{w}-list=fields-of-that-side', z3.ForAll([j], V.lists[w].mem(j) == z3.And(plain, j >= 1, side(w)))))
+            items.append(('no-alt-labels-filed-separately-in-a-fusion', z3.ForAll([j], z3.Not(A.mem(j)))))
+        else:
+            lo = 1 if t == 'circ' else 0
+            items.append(('alt-list=alt-translation-fields', z3.ForAll([j], A.mem(j) == z3.And(plain, j >= lo, alt))))
+            items.append(('variant-list=variant-prefix-fields', z3.ForAll([j], V.lists[1].mem(j) == z3.And(plain, j >= lo, z3.Not(alt), ctbv))))
+            items.append(('other-sides-unused', z3.ForAll([j], z3.And(z3.Not(V.lists[0].mem(j)), z3.Not(V.lists[2].mem(j))))))
+        for w in (0, 1, 2):
+            items.append((f'side-{w}-present-iff-non-empty', V.present[w] == z3.Exists([j], V.lists[w].mem(j))))
+        return items
+
+    @property
+    def loops(self):
+        T = lambda I, env, k: []
+        return {0: LoopSpec(inv=T, havoc=lambda I, env, k: None, on_head=self.head0, step=self.step0, target_after='unknown'),
+                1: LoopSpec(inv=self.inv1, on_init=self.init1, havoc=self.havoc1, target_after='unknown')}
+
+    def head0(self, I, env, k):
+        st = self._cur
+        st.m = len(st.made)
+        st.cls_fus, st.cls_circ = I.eval(__import__('ast').parse('FusionVariantPeptideIdentifier', mode='eval').body, env), \
+            I.eval(__import__('ast').parse('CircRNAVariantPeptideIdentifier', mode='eval').body, env)
+
+    def step0(self, I, env, k):
+        st = self._cur
+        made = st.made[st.m:]
+        items = [('one-identifier-per-entry', len(made) == 1)]
+        if len(made) != 1:
+            return items
+        o = made[0]
+        n = st.fields.n()
+        j = z3.Int('j_post')
+        fus, circ, orf, alt, ctbv = self.kinds(j)
+        back = z3.Or(fus, circ)
+        rng = z3.And(0 <= j, j < n)
+        plain = z3.And(rng, z3.Not(back), z3.Not(orf))
+        mem = lambda v, jj: v.mem(jj) if isinstance(v, (_GhostIds, _IdUnion)) else z3.BoolVal(False)
+        f = o.fields
+        idx_ok = (f.get('index') is None) == (not st.fields.popped)
+        items.append(('index=trailing-number-if-any', idx_ok))
+        if o.cls == 'FusionVariantPeptideIdentifier':
+            side = lambda w: z3.If(self.P(j, '1-'), 1, z3.If(self.P(j, '2-'), 2, 0)) == w
+            items.append(('fusion/backbone=first-field', (f['fusion_id'].j == 0) if isinstance(f['fusion_id'], _Field) else False))
+            for w, nm in ((1, 'first_variants'), (2, 'second_variants'), (0, 'peptide_variants')):
+                items.append((f'fusion/{nm}=exactly-the-fields-of-that-side', z3.ForAll([j], mem(f[nm], j) == z3.And(plain, j >= 1, side(w)))))
+        elif o.cls in ('CircRNAVariantPeptideIdentifier', 'BaseVariantPeptideIdentifier'):
+            lo = 1 if o.cls.startswith('Circ') else 0
+            key = 'circ_rna_id' if o.cls.startswith('Circ') else 'transcript_id'
+            items.append((f'{o.cls[:4].lower()}/backbone=first-field', (f[key].j == 0) if isinstance(f[key], _Field) else False))
+            items.append((f'{o.cls[:4].lower()}/variant_ids=exactly-the-variant-and-alt-translation-fields',
+                          z3.ForAll([j], mem(f['variant_ids'], j) == z3.And(plain, j >= lo, z3.Or(alt, ctbv)))))
+        else:
+            items.append(('novel/transcript=first-field-gene=second-field', z3.And(f['transcript_id'].j == 0, True if f['gene_id'] is None else f['gene_id'].j == 1) if isinstance(f['transcript_id'], _Field) else False))
+            items.append(('novel/codon_reassigns=exactly-the-alt-translation-fields', z3.ForAll([j], mem(f['codon_reassigns'], j) == z3.And(plain, alt))))
+            items.append(('novel/only-without-variant-ids-and-with-an-orf-id', z3.And(z3.Not(z3.Exists([j], z3.And(plain, z3.Not(alt), ctbv))), f['orf_id'] is not None)))
+        oid = f.get('orf_id')
+        if oid is None:
+            items.append(('no-orf-id=>no-orf-field', z3.ForAll([j], z3.Implies(rng, z3.Or(back, z3.Not(orf))))))
+        else:
+            items.append(('orf-id=last-orf-field', z3.And(0 <= oid.j, oid.j < n, self.P(oid.j, 'ORF'), z3.ForAll([j], z3.Implies(z3.And(oid.j < j, j < n), z3.Or(back, z3.Not(orf)))))))
+        return items
+
+    def post_raise(self, I, st, exc):
+        j = z3.Int('j_bad')
+        if exc.cls == 'ValueError':
+            back = z3.Or(*[self.P(j, x) for x in ('FUSION', 'CI', 'CIRC')])
+            I.e.prove('C18/parse/raise/only-for-a-backbone-prefix-after-the-first-field', z3.Exists([j], z3.And(1 <= j, j < st.fields.n(), back)))
+        else:
+            I.e.prove('C18/parse/raise/index-error-only-for-an-entry-that-is-just-a-number', st.fields.n() == 0)
+
+
 SFC = 'moPepGen/cli/split_fasta.py'
 
 
